@@ -253,10 +253,10 @@ theorem cache_reply_at_most_one (limit : Nat) (s1 s2 : RStream) (f : Filt) (req 
     split
     · simp [Outcome.pubs]
     · rename_i l mx _
-      simp only [Outcome.pubs, Bool.true_and, Bool.not_false, Bool.and_true]
       cases r
-      · simp
-      · simp only [if_true]
+      · simp [Outcome.pubs]
+      · simp only [Outcome.pubs, Bool.not_true, Bool.and_false, Bool.false_eq_true, if_false, Bool.true_and,
+          Bool.not_false, Bool.and_true, if_true]
         split
         · rename_i hl; simp only [decide_eq_true_eq] at hl; simp; omega
         · rename_i hl; simp only [decide_eq_true_eq] at hl; omega
